@@ -1194,7 +1194,7 @@ func (e *Engine) internPC(in ssa.Instruction, fn *ssa.Function) int {
 	}
 	p := e.prog.Fset.Position(in.Pos())
 	e.pcs = append(e.pcs, pcRec{p.Filename, p.Line, fn.String()})
-	h := 0x400000 + len(e.pcs)
+	h := 0x400000 + 5*len(e.pcs) // call sites are spaced like 5-byte call instructions (densest packing)
 	e.pcIdx[in] = h
 	return h
 }
@@ -1202,7 +1202,7 @@ func (e *Engine) internPC(in ssa.Instruction, fn *ssa.Function) int {
 func (e *Engine) pcInfo(h uint64) (string, int, string) {
 	e.mu.Lock()
 	defer e.mu.Unlock()
-	i := int(h) - 0x400000 - 1
+	i := (int(h)-0x400000)/5 - 1
 	if i < 0 || i >= len(e.pcs) {
 		return "", 0, ""
 	}
